@@ -247,7 +247,15 @@ func (c *canceller) Preempt(ctx context.Context, req *jsonrpc.Request) (result a
 		if err := internaljson.Unmarshal(req.Params, &params); err != nil {
 			return nil, err
 		}
-		id, err := jsonrpc2.MakeID(params.RequestID)
+		// Decode the ID from its wire form: params.RequestID has gone through
+		// float64, which does not preserve integers beyond 2^53.
+		var rawParams struct {
+			RequestID json.RawMessage `json:"requestId"`
+		}
+		if err := internaljson.Unmarshal(req.Params, &rawParams); err != nil {
+			return nil, err
+		}
+		id, err := jsonrpc2.DecodeID(rawParams.RequestID)
 		if err != nil {
 			return nil, err
 		}
